@@ -44,6 +44,13 @@ Record operation := mkOp {
   o_bodies : list (str * body_outcome) }.
 Record endpoint := mkEp { ep_key : str; ep_name : str; ep_responses : list (str * N); ep_bodies : list str; ep_warnings : list warning }.
 
+(* tags = [PythonIdentifier(tag) for tag in operation.tags or ["default"]]; if not config.generate_all_tags: tags = tags[:1].
+   `raw`: the sanitised tags the operation declares (possibly none: a missing key and an empty list are the same to `or`) *)
+Definition s_default : str := [100;101;102;97;117;108;116].
+Definition sel_tags (all_tags : bool) (raw : list str) : list str :=
+  let ts := match raw with [] => [s_default] | _ => raw end in
+  if all_tags then ts else firstn 1 ts.
+
 (* Endpoint.from_data + add_parameters + sort_parameters: Some endpoint (with its own warnings) or None (one warning) *)
 Definition parse_operation (o : operation) : option endpoint :=
   if negb (o_params_ok o) then None
